@@ -38,6 +38,7 @@ def est_lit(c):
 def run(ctx, res):
     from . import genarith
     genarith.regenerate(ctx.pid, "raire", res)   # regenerated tie: bp_estimate / cp_estimate (DESIGN 2.1)
+    genarith.regenerate(ctx.pid, "raire_skeletons", res)   # whole-function skeletons of the search, tied to RaireAlgo.v
     rng = ctx.rng
     hints = (None, lambda n: list(range(n)), lambda n: list(reversed(range(n))))
     with R.untraced():
